@@ -61,6 +61,9 @@ func c07KeyScenario(c *choice.Ctx, rep *report.R) {
 	vi := c.Choose(len(vars), "variant")
 	baseGroup := c.Choose(3, "base-client") // g1 client, ungrouped client, no marker file configured
 	rev := c.Choose(2, "direction")         // store variant first, then ask base
+	// what the upstream puts into the question section of its reply to the first query: the question as asked, the same name in
+	// upper case, or the second query's question (an upstream that rewrites the question): the entry is filed under what was asked
+	echo := c.Choose(3, "upstream-echo")
 	va := vars[vi]
 	base := c07Q{refdns.N("www", "example", "test"), 1, 1, "10.0.0.7"}
 	sameKey := va.sameKey
@@ -81,7 +84,7 @@ func c07KeyScenario(c *choice.Ctx, rep *report.R) {
 	if rev == 1 {
 		first, second = other, base
 	}
-	desc := fmt.Sprintf("variant=%s baseClient=%d reversed=%d first=%s/%d/%d@%s second=%s/%d/%d@%s", va.name, baseGroup, rev, first.name, first.class, first.typ, first.client, second.name, second.class, second.typ, second.client)
+	desc := fmt.Sprintf("upstream-echo=%d variant=%s baseClient=%d reversed=%d first=%s/%d/%d@%s second=%s/%d/%d@%s", echo, va.name, baseGroup, rev, first.name, first.class, first.typ, first.client, second.name, second.class, second.typ, second.client)
 	var outcomes [2]string
 	var keys [2][2][]byte
 	for pi, pat := range []byte{0xA5, 0x5A} {
@@ -106,7 +109,16 @@ func c07KeyScenario(c *choice.Ctx, rep *report.R) {
 			serial := byte(0)
 			u.Auto = func(q *upQuery) *upResult {
 				serial++
-				return &upResult{wire: env.Answer(q.Msg, serial, 300).Encode(false)}
+				r := env.Answer(q.Msg, serial, 300)
+				if serial == 1 && len(r.Q) == 1 {
+					switch echo {
+					case 1:
+						r.Q = []refdns.Q{{Name: refdns.Name(upperLabels(r.Q[0].Name)), Type: r.Q[0].Type, Class: r.Q[0].Class}}
+					case 2:
+						r.Q = []refdns.Q{{Name: second.name.Lower(), Type: second.typ, Class: second.class}}
+					}
+				}
+				return &upResult{wire: r.Encode(false)}
 			}
 			srv := v.newTCPServer(0, 1000*time.Second)
 			ask := func(q c07Q, id uint16) (*refdns.Msg, int) {
@@ -503,4 +515,12 @@ func TestVerifC07(t *testing.T) {
 	})
 	rep.Count("executions", st.Executions)
 	rep.Sample(map[string]any{"variant": "class-IN-to-CH", "first": "www.example.test IN A from 10.0.0.7 (g1)", "second": "www.example.test CH A from 10.0.0.7", "expect": "miss"})
+}
+
+func upperLabels(n refdns.Name) [][]byte {
+	var out [][]byte
+	for _, l := range n {
+		out = append(out, bytes.ToUpper(l))
+	}
+	return out
 }
